@@ -164,9 +164,14 @@ var scripts = map[string]script{
 	"okpanic": {comps: []bool{true}, panics: true},
 	"late":    {comps: []bool{true}, late: true},
 	"badval":  {comps: []bool{true}, bad: true},
+	// the variable `completed` of CallMethod (fix of D23): an ERROR completion counts as well; a completion the
+	// completion function chokes on does not; the handler's own second completion is not the framework's business
+	"errpanic":   {comps: []bool{false}, panics: true},
+	"errbad":     {comps: []bool{false, true}, bad: true},
+	"twicepanic": {comps: []bool{true, true}, panics: true},
 }
 
-var behNames = []string{"ok", "err", "twice", "errok", "none", "panic", "nilpan", "okpanic", "late", "badval"}
+var behNames = []string{"ok", "err", "twice", "errok", "none", "panic", "nilpan", "okpanic", "late", "badval", "errpanic", "errbad", "twicepanic"}
 
 var okValue = func() interface{} { return &msgs.TestHello{I: 99, S: "r"} }
 
